@@ -102,6 +102,13 @@ void* mc_exact(const void* src, size_t n);
  * bit i set = boundary after element i+1.  Fills parts[], returns count. */
 int mc_composition(int n, uint32_t mask, int* parts);
 
+/* Deviation-bounded enumeration: nd dimensions with alphabet sizes[i] (choice 0 =
+ * default).  Every choice vector with at most maxdev non-default entries is
+ * visited, one stage per deviation count (completed in order); fn is called for
+ * the vectors this shard owns, after mc_desc/mc_case_key/mc_nontrivial. */
+typedef void (*mc_dev_fn)(const int* choice, int ndev, void* ctx);
+void mc_deviations(const int* sizes, int nd, int maxdev, const char* tag, const char* const* names, mc_dev_fn fn, void* ctx);
+
 #ifdef __cplusplus
 }
 #endif
